@@ -39,6 +39,7 @@ navis.set_loggers('ERROR')
 EPS = Fraction(1, 2 ** 30)
 EPS_TOK = f'1/{2 ** 30}'
 SIG_INT = 'mirror / integer-dtype coordinates truncated by astype(points.dtype) / all-integer xyz, non-integer mirror_axis_size'
+SIG_NAN = 'xform / _guess_change yields NaN (round(log10(nan)) raises ValueError) / all collated coordinate rows coincide (>= 2 rows)'
 SIG_SYM = 'symmetrize_brain / k-less Dotprops / tangent vectors dropped (_vect=None, .vect raises)'
 
 
@@ -291,7 +292,7 @@ def meta_of(n):
         except Exception as e:
             m['soma'] = f'ERR {type(e).__name__}'
         m['soma_radius_str'] = n.soma_radius if isinstance(n.soma_radius, str) else None
-        m['node_cols'] = [(c, str(n.nodes[c].dtype)) for c in n.nodes.columns if c not in ('x', 'y', 'z')]
+        m['node_cols'] = [(c, str(n.nodes[c].dtype) if c != 'radius' else 'num') for c in n.nodes.columns if c not in ('x', 'y', 'z')]
         m['node_xyz_pos'] = [list(n.nodes.columns).index(c) for c in 'xyz']
         m['node_index'] = list(map(int, n.nodes.index))
     if isinstance(n, navis.Dotprops):
@@ -465,6 +466,14 @@ def block_rows(n):
     return k + (c.shape[0] if c is not None else 0)
 
 
+def all_rows_coincide(d):
+    """≥ 2 collated rows (points + connectors, no helper points) that are all at the same position."""
+    if d['kind'] == 'd' and d['k'] == '-':
+        return False
+    rows = [tuple(r.split(',')[:3]) for tok in (d['pts'], d['conns']) if tok != '-' for r in tok.split(';') if r]
+    return len(rows) >= 2 and len(set(rows)) == 1
+
+
 def pure_pow10(steps):
     """k if the whole transform is `10^k · I + t` with k ≠ 0 (single affine step), else None."""
     if len(steps) != 1 or steps[0][0] != 'A':
@@ -594,7 +603,11 @@ def run_xform(ctx, case):
             ctx.count('raises', type(e).__name__)
             return
         ctx.count('impl_error', type(e).__name__)
-        ctx.oracle(False, f'navis.xform raises {type(e).__name__}: {str(e)[:160]} on a valid {spec["type"]}', case)
+        sig = None
+        if isinstance(e, ValueError) and 'NaN' in str(e) and any(all_rows_coincide(d) for d in d_ins):
+            sig = SIG_NAN
+        ctx.oracle(False, f'navis.xform raises {type(e).__name__}: {str(e)[:160]} on a valid {spec["type"]}'
+                          + (' whose coordinate rows (nodes + connectors) all coincide' if sig else ''), case, signature=sig)
         return
     after = snap(x)
     ctx.oracle(before == after, f'navis.xform modified its input ({spec["type"]})', case)
@@ -818,8 +831,14 @@ def run_mirror(ctx, case):
     if spec['type'] in ('df', 'array', 'volume', 'trimesh'):
         check_table_like(ctx, case, x, out, F, what, mirror=True)
         if out2 is not None:
-            ctx.oracle(snap(out2)[1:3] == before[1:3] if spec['type'] != 'df' else
-                       (table_rows(out2) == table_rows(x)),
+            if spec['type'] == 'df':
+                back = table_rows(out2) == table_rows(x)
+            elif spec['type'] == 'array':
+                back = arr_rows(out2) == arr_rows(x)
+            else:
+                back = (arr_rows(out2.vertices) == arr_rows(x.vertices)
+                        and np.array_equal(np.asarray(out2.faces), np.asarray(x.faces)))
+            ctx.oracle(back,
                        f'{what} twice (no warp) does not give the input back ({spec["type"]})', case)
         case.pop('_steps', None)
         return
@@ -1220,25 +1239,50 @@ def gen_cases(ctx):
     yield 'xform', {'obj': {'type': 'tree', 'nodes': [[3, -1, 1, 2, 3, 0.5, 0]], 'units': '8 nm',
                             'conns': [[1, 3, 0, 1, 2, 4, 'a']]},
                     'tr': [['A', [1000, 0, 0, 0, 0, 1000, 0, 0, 0, 0, 1000, 0]]], 'stream': 'corner'}
-    for i in range(ctx.budget(150, 1600)):
+    # --- exhaustive grid of block sizes: kind × #points × connectors (None / 0 / 1 / 2 / 3 rows) ------
+    for kind, sizes in (('tree', [0, 1, 2, 3]), ('mesh', [3, 4]), ('dots_k', [2, 3]), ('dots_nok', [2, 3])):
+        for npt in sizes:
+            for nc in (None, 0, 1, 2, 3):
+                P = [[float(i), float(i * i) / 4, float(-i) / 2] for i in range(npt)]
+                conns = None if nc is None else [[100 + j, 0, j % 2, 7.0 + j, -1.5 * j, 2.25, 'e'] for j in range(nc)]
+                if kind == 'tree':
+                    obj = {'type': 'tree', 'nodes': [[i + 1, i if i else -1, P[i][0], P[i][1], P[i][2], 0.01, 0] for i in range(npt)],
+                           'conns': None if conns is None else [[c[0], min(npt, 1), c[2], c[3], c[4], c[5], c[6]] for c in conns] if npt else None,
+                           'units': '8 nm'}
+                elif kind == 'mesh':
+                    obj = {'type': 'mesh', 'verts': P, 'faces': [[0, 1, 2]] + ([[1, 3, 2]] if npt > 3 else []), 'conns': conns, 'units': '1 um'}
+                else:
+                    obj = {'type': 'dots', 'points': P, 'conns': conns, 'units': '1 um', 'k': 2 if kind == 'dots_k' else None}
+                    if kind == 'dots_nok':
+                        obj['vect'] = [[1, 2, 2], [0, 3, 4], [1, 0, 0]][:npt]
+                yield 'xform', {'obj': obj, 'tr': T if (npt + (nc or 0)) % 2 else [T[0], ['Q', [0.5, -1, 2]]], 'wrap': 'seq', 'stream': 'grid'}
+    for i in range(ctx.budget(150, 4000)):
         steps, wrap = gen_steps(r)
         yield 'xform', {'obj': gen_neuron(r, small=(i % 9 == 0)), 'tr': steps, 'wrap': wrap, 'np_seed': r.randrange(10 ** 6), 'stream': 'random'}
-    for i in range(ctx.budget(40, 400)):
+    for i in range(ctx.budget(40, 1000)):
         steps, wrap = gen_steps(r, scale_stream=True)
         obj = gen_tree(r, dyadic_radius=True) if i % 3 else gen_neuron(r)
         if obj['type'] == 'tree' and len(obj['nodes']) < 2:
             obj = gen_tree(r, dyadic_radius=True)
         yield 'xform', {'obj': obj, 'tr': steps, 'wrap': wrap, 'np_seed': r.randrange(10 ** 6), 'stream': 'scale'}
-    for i in range(ctx.budget(25, 250)):
+    for i in range(ctx.budget(4, 20)):
+        p = [q4(r), q4(r), q4(r)]
+        steps, wrap = gen_steps(r)
+        if i % 2:
+            obj = {'type': 'tree', 'nodes': [[1, -1] + p + [0.01, 0], [2, 1] + p + [0.01, 0]], 'conns': None, 'units': '8 nm'}
+        else:
+            obj = {'type': 'tree', 'nodes': [[7, -1] + p + [0.01, 0]], 'conns': [[1, 7, 0] + p + ['a']], 'units': '8 nm'}
+        yield 'xform', {'obj': obj, 'tr': steps, 'wrap': wrap, 'stream': 'coincident'}
+    for i in range(ctx.budget(25, 600)):
         steps, wrap = gen_steps(r)
         k = r.choice([1, 2, 2, 3, 4])
         yield 'xform', {'obj': {'type': 'list', 'items': [gen_neuron(r) for _ in range(k)]}, 'tr': steps, 'wrap': wrap,
                         'np_seed': r.randrange(10 ** 6), 'stream': 'list'}
-    for i in range(ctx.budget(60, 600)):
+    for i in range(ctx.budget(60, 1500)):
         steps, wrap = gen_steps(r)
         yield 'table', {'obj': gen_tablelike(r), 'tr': steps, 'wrap': wrap, 'stream': 'table'}
     # --- mirror ----------------------------------------------------------------------------------
-    for i in range(ctx.budget(110, 1100)):
+    for i in range(ctx.budget(110, 3000)):
         u = r.random()
         if u < 0.6:
             obj = gen_neuron(r)
@@ -1260,7 +1304,7 @@ def gen_cases(ctx):
             if obj.get('as_list'):
                 obj['as_list'] = False
         yield 'mirror', c
-    for i in range(ctx.budget(30, 300)):
+    for i in range(ctx.budget(30, 800)):
         u = r.random()
         if u < 0.25:
             obj = gen_tree(r)
@@ -1273,11 +1317,11 @@ def gen_cases(ctx):
             if obj['type'] in ('volume', 'trimesh') or obj.get('int_xyz') or obj.get('as_list'):
                 obj = {'type': 'array', 'rows': [[q4(r), q4(r), q4(r)] for _ in range(r.choice([1, 3, 6]))]}
         yield 'symm', {'obj': obj, 'template': dict(gen_template(r, reg=True), form='3x2'), 'stream': 'symmetrize'}
-    for i in range(ctx.budget(12, 80)):
+    for i in range(ctx.budget(12, 150)):
         size = r.choice([7.5, 0.5, 10, 101, -2.5, 64.25])
         yield 'intmirror', {'rows': [[r.randint(-20, 20) for _ in range(3)] for _ in range(r.choice([1, 2, 4]))],
                             'size': size, 'axis': r.choice('xyz'), 'stream': 'int-dtype'}
-    for i in range(ctx.budget(8, 60)):
+    for i in range(ctx.budget(8, 120)):
         shape = [r.choice([2, 3, 4]), r.choice([2, 3, 5]), r.choice([2, 4])]
         vox = [[r.randrange(shape[0]), r.randrange(shape[1]), r.randrange(shape[2]), r.choice([1, 0.5, 2])] for _ in range(3)]
         d = [r.choice([0.5, 1, 2, 4]) for _ in range(3)]
